@@ -53,6 +53,7 @@ impl Clone for ExecutionParameters { #[verifier::external_body] fn clone(&self) 
 pub struct StageEv {
     pub node: ast::Command, pub suppress: bool, pub stdin: Option<OpenFile>, pub stdout: Option<OpenFile>,
     pub own_shell: bool, pub same_pg: bool, pub pgid_in: Option<i32>, pub ok: bool,
+    pub returned: Result<ExecutionSpawnResult, error::Error>,     // what the stage handed back to the launcher
 }
 #[verifier::external_body] pub struct Shell { _p: u8 }
 impl Shell {
@@ -94,6 +95,7 @@ impl ast::Command {
             &&& p1.stages().last().same_pg == (params.process_group_policy is SameProcessGroup)
             &&& p1.stages().last().pgid_in == context.process_group_id
             &&& p1.stages().last().ok == r.is_ok()
+            &&& p1.stages().last().returned == r
             &&& (context.shell is OwnedShell ==> p1.opts() == p0.opts())      // a stage in its own shell cannot change the parent's options
         })
     { unimplemented!() }
@@ -119,7 +121,10 @@ pub open spec fn stage_ok_at(t: Seq<StageEv>, i: int, p: ast::Pipeline, params: 
 // already complete when the launch returns, only its exit status is kept.  (A builtin started as a task in an owned shell is
 // stripped inside that task: commands.rs execute_via_builtin_in_owned_shell, not covered here.)
 pub open spec fn result_confined(e: StageEv, r: ExecutionSpawnResult) -> bool {
-    (e.own_shell && r is Completed) ==> r->Completed_0.next_control_flow is Normal
+    &&& (e.own_shell && r is Completed) ==> r->Completed_0.next_control_flow is Normal
+    // C02 / C16: a stage run in THIS shell (a lone command; the last stage under lastpipe) is this shell: what it asks for — exit,
+    // return, break — is handed on exactly as it came back
+    &&& (!e.own_shell && e.returned is Ok) ==> r == e.returned->Ok_0
 }
 // the first k stage launches t[0..k) of pipeline p are as specified
 pub open spec fn stages_ok(t: Seq<StageEv>, k: int, p: ast::Pipeline, params: ExecutionParameters, o: RuntimeOptions) -> bool {
